@@ -2182,8 +2182,9 @@ class SQLGenerator:
                     pattern = r"\b" + re.escape(metric_name).replace(r"\.", r"\.") + r"\b"
                     formula = re.sub(pattern, f"({metric_sql})", formula)
 
-                    # Then also replace unqualified form (measure name only)
-                    pattern = r"\b" + re.escape(measure_only) + r"\b"
+                    # Then also replace unqualified form (measure name only), but never the
+                    # measure part of another model's qualified reference (other.measure)
+                    pattern = r"(?<![\w.])" + re.escape(measure_only) + r"\b"
                     formula = re.sub(pattern, f"({metric_sql})", formula)
                 else:
                     # For simple names, use word boundaries
